@@ -5,6 +5,7 @@
    liveness and deep-copy clauses of the property. *)
 From Coq Require Import NArith ZArith List Bool.
 From AJ Require Import Model.Base Model.Value Model.Tree Proofs.TreeProofs.
+From AJ Require Import Model.Pool Model.Collection Proofs.PoolProofs Proofs.CollProofs.
 Local Open Scope N_scope.
 
 (* slot identities are unique across all documents after ANY history from the initial world *)
@@ -76,6 +77,89 @@ Proof. exact doc_swap_spec. Qed.
 Print Assumptions C04_swap.
 
 (* read-only operations change nothing: in the model they are functions of the world (get, to_jv), not steps *)
+
+(* ---- one level down: the representation.  An array (an object) is a singly linked chain of slots with a head and a
+   tail identifier, on top of the slot allocator with its free list and pools (Model/Collection.v mirrors
+   CollectionData / ArrayData / ObjectData routine by routine; it is run against the library's actual slot chains).
+   Whatever the history — slot reuse after removals, tail maintenance, pool boundaries, free-list order, allocator
+   failures at any call — the chain is the plain list the tree model assumes. ---- *)
+
+(* every reachable state of an array: well formed (acyclic, tail = last, links consistent with the allocator) *)
+Theorem C04_array_chain_invariant : forall g ops, good_geom g -> Forall array_op ops ->
+  WF g (fst (arun g ops)) /\
+  NoDup (elements g (fst (arun g ops))) /\ forall id, In id (elements g (fst (arun g ops))) -> id < null_slot g.
+Proof. intros g ops Hg Ha. split; [exact (arun_wf_array g ops Hg Ha) | exact (arun_elements_distinct_valid_array g ops Hg Ha)]. Qed.
+Print Assumptions C04_array_chain_invariant.
+
+(* every reachable state of an object: well formed, and made of whole key/value pairs *)
+Theorem C04_object_chain_invariant : forall g ops, good_geom g -> Forall object_op ops ->
+  WF g (fst (arun g ops)) /\ Nat.Even (length (elements g (fst (arun g ops)))) /\
+  NoDup (elements g (fst (arun g ops))).
+Proof.
+  intros g ops Hg Ho. destruct (arun_wf_object g ops Hg Ho) as [W E].
+  split; [exact W | split; [exact E | exact (proj1 (arun_elements_distinct_valid_object g ops Hg Ho))]].
+Qed.
+Print Assumptions C04_object_chain_invariant.
+
+(* add appends at the end, with a slot that no live value uses: every other element keeps its slot, hence every
+   reference to another value keeps designating it *)
+Theorem C04_add_appends : forall g s fails s' id n, good_geom g -> WF g s ->
+  astep g s (AAdd fails) = (s', Some id, n) ->
+  elements g s' = elements g s ++ [id] /\ ~ In id (lv (a_ps s)) /\ id < null_slot g.
+Proof. exact add_appends. Qed.
+Print Assumptions C04_add_appends.
+
+(* remove(k) closes the gap and touches nothing else; beyond the end it is a no-op *)
+Theorem C04_remove_closes_gap : forall g s k, good_geom g -> WF g s -> (k < length (elements g s))%nat ->
+  elements g (fst (fst (astep g s (ARemove k)))) = remove_at k (elements g s)
+  /\ snd (fst (astep g s (ARemove k))) = nth_error (elements g s) k.
+Proof. exact remove_closes_gap. Qed.
+Print Assumptions C04_remove_closes_gap.
+
+Theorem C04_remove_beyond_end_noop : forall g s k, (length (elements g s) <= k)%nat ->
+  astep g s (ARemove k) = (s, None, O).
+Proof. exact remove_beyond_end_noop. Qed.
+Print Assumptions C04_remove_beyond_end_noop.
+
+(* insertion beyond the end ( array[k] = ... ) pads: the old elements stay a prefix, element k then exists *)
+Theorem C04_insert_beyond_end_pads : forall g s k fails s' r n, good_geom g -> WF g s ->
+  astep g s (AGetOrAdd k fails) = (s', r, n) ->
+  exists added, elements g s' = elements g s ++ added /\
+    (forall id, In id added -> ~ In id (lv (a_ps s))) /\
+    (r <> None -> nth_error (elements g s') k = r /\
+                  length (elements g s') = Nat.max (length (elements g s)) (S k)).
+Proof. exact get_or_add_pads. Qed.
+Print Assumptions C04_insert_beyond_end_pads.
+
+(* objects: a new member appends its key slot and its value slot; removing the k-th member removes exactly those two *)
+Theorem C04_member_add_appends_pair : forall g s fails s' v n, good_geom g -> WF g s ->
+  astep g s (OAdd fails) = (s', Some v, n) ->
+  exists key, elements g s' = elements g s ++ [key; v] /\ key <> v /\
+              ~ In key (lv (a_ps s)) /\ ~ In v (lv (a_ps s)).
+Proof. exact oadd_appends_pair. Qed.
+Print Assumptions C04_member_add_appends_pair.
+
+Theorem C04_member_remove_removes_pair : forall g s k, good_geom g -> WF g s -> (2 * k + 1 < length (elements g s))%nat ->
+  elements g (fst (fst (astep g s (ORemove k)))) = remove_at (2 * k) (remove_at (2 * k) (elements g s)).
+Proof. exact oremove_removes_pair. Qed.
+Print Assumptions C04_member_remove_removes_pair.
+
+(* clear() empties the collection and gives every slot back to the free list; shrinkToFit changes no chain *)
+Theorem C04_clear_empties : forall g s, good_geom g -> WF g s ->
+  elements g (fst (fst (astep g s AClear))) = []
+  /\ (forall id, In id (elements g s) -> In id (free_list (pl (a_ps (fst (fst (astep g s AClear))))))).
+Proof. exact clear_empties. Qed.
+Print Assumptions C04_clear_empties.
+
+Theorem C04_shrink_keeps_chain : forall g s, elements g (fst (fst (astep g s AShrink))) = elements g s.
+Proof. exact shrink_keeps. Qed.
+Print Assumptions C04_shrink_keeps_chain.
+
+(* the well-formedness hypothesis is met by a non-trivial reachable state: slot 1 removed and reused, a pool boundary crossed *)
+Example C04_chain_example :
+  let g := {| id_bits := 8; pool_cap := 4; inline_pools := 2 |} in
+  elements g (fst (arun g [AAdd []; AAdd []; AAdd []; ARemove 1; AAdd []; AAdd []; AAdd []])) = [0; 2; 1; 3; 4].
+Proof. vm_compute. reflexivity. Qed.
 
 Example C04_example :   (* doc[5] = true on an empty document pads with nulls; removing index 1 shifts *)
   let w0 := init_world 1 in
